@@ -95,11 +95,11 @@ def get_alpha(seed):
     return _alpha[seed]
 
 
-def single(root, b, cc=None, enc=None):
-    return impl.run(root, b, cc=cc, enc=enc, strict=True, keep_raw=True)
+def single(root, b, cc=None, enc=None, root_path=None):
+    return impl.run(root, b, cc=cc, enc=enc, strict=True, keep_raw=True, root_path=root_path)
 
 
-def check_stream(acc, labels, msgs, trailing_command):
+def check_stream(acc, labels, msgs, trailing_command, root_path=None):
     """msgs: list of message byte strings, alternating command / response"""
     ns = loader.load()
     from tpmstream.common.object import events_to_obj, events_to_objs
@@ -109,7 +109,10 @@ def check_stream(acc, labels, msgs, trailing_command):
     fpx = {"n": len(msgs), "trailing": trailing_command}
     acc.count("evaluations")
     loader.cache_clear()  # once per history; never between the decodes that are compared with each other
-    s = impl.run("CommandResponseStream", stream, strict=True, keep_raw=True)
+    s = impl.run("CommandResponseStream", stream, strict=True, keep_raw=True, root_path=root_path)
+    if root_path:
+        d["root_path"] = root_path
+        fpx["custom_root_path"] = True
     acc.count("stream:" + s.kind)
     # the expected concatenation: each response interpreted with the preceding command's code / encrypt request (from the reference)
     exp, exp_raw, per_msg = [], [], []
@@ -121,9 +124,9 @@ def check_stream(acc, labels, msgs, trailing_command):
                 acc.violation({"clause": "model-self-check", "what": "alphabet-command"}, d, f"reference rejects alphabet command {labels}: {rr.kind} {rr.details}")
                 return
             cc, enc = rr.msgs[-1][2], rr.msgs[-1][3]
-            r = single("Command", m)
+            r = single("Command", m, root_path=root_path)
         else:
-            r = single("Response", m, cc=cc, enc=enc)
+            r = single("Response", m, cc=cc, enc=enc, root_path=root_path)
         if r.kind != "Done":
             acc.violation(dict({"clause": "single-message-rejected", "kind": r.kind}, **fpx), d, f"message {i} alone: {r.kind} {r.details}")
             return
@@ -144,6 +147,8 @@ def check_stream(acc, labels, msgs, trailing_command):
             acc_n += n
         acc.violation(dict({"clause": "stream!=concatenation", "message": "command" if k % 2 == 0 else "response", "first": k < 2}, **fpx), d, f"event {i} (message {k}): stream gives {got}, the message alone gives {want}")
         return
+    if root_path:
+        return  # events_to_objs splits at the default root path; only the event stream is compared here
     # objects: one per message, in order, equal to the per-message conversion
     try:
         objs = list(events_to_objs(list(s.raw)))
@@ -223,6 +228,8 @@ def run_unit(unit):
         # depth 1: the pair alone, and the command alone
         check_stream(acc, [first], [f[0], f[1]], False)
         check_stream(acc, [first], [f[0]], True)
+        check_stream(acc, [first], [f[0], f[1]], False, root_path="log.entry[3]")
+        check_stream(acc, [first, first], [f[0], f[1], f[0]], True, root_path="x")
         acc.count("states", 2)
         for tail in itertools.product(sorted(rest), repeat=unit["depth"] - 1):
             for sub in ([tail] if unit["depth"] == 2 else [tail, tail[:1]]):
@@ -260,5 +267,5 @@ def replay(case):
     if case.get("harness") == "boundary":
         a = boundary_states(Acc(), {"kind": "boundary", "label": "replay", "labels": [case["label"]], "seed": 0})
         return [(v["fp"], v["case"], v["detail"]) for v in a.viol.values()]
-    check_stream(acc, case.get("labels", []), msgs, len(msgs) % 2 == 1)
+    check_stream(acc, case.get("labels", []), msgs, len(msgs) % 2 == 1, root_path=case.get("root_path"))
     return [(v["fp"], v["case"], v["detail"]) for v in acc.viol.values()]
